@@ -61,6 +61,23 @@ def classify(h, fails):
     return res
 
 
+def shrink(h, clir, sc, driver):
+    """smaller program that is still not idempotent while its first output re-parses to the same AST"""
+    def fmt(s):
+        return clir.format(s) if driver == "cli" else L.impl_format(h, [(s, sc.width, "lib")])[0]
+
+    def pred(s):
+        a = fmt(s)
+        if a[0] != "OK":
+            return False
+        b = fmt(a[1])
+        if b == a:
+            return False
+        x, y = stripped_asts(h, [s, a[1]])
+        return x == y and x != "REJECT"
+    return L.shrink_lines(sc.src, pred)
+
+
 def replay(h, cli, path):
     with open(path) as f:
         rp = json.load(f)
@@ -119,6 +136,7 @@ def main(argv):
             if len(res.violations) < 5:
                 res.violation("formatting the formatter's own output changes it (%s driver)" % driver,
                               {"kind": "impl-law", "source": sc.src, "width": sc.width, "driver": driver,
+                               "shrunk_source": shrink(h, clir, sc, driver),
                                "observed": {"format(p)": a[1], "format(format(p))": b[1] if b[0] == "OK" else b[0]},
                                "expected": "format(format(p,w),w) == format(p,w)",
                                "rerun": "./check C08 --replay <this file>"})
